@@ -22,6 +22,7 @@ EXPLANATION = (
     "overrides tsukamoto(); D3: every parameter membership() reads is read by tsukamoto(); elementwise safety of the inverse kernels; operators only after "
     "scalar() coercion (V8)"
     "; the tsukamoto kernels read only the parameters (K1) and return the shape of their argument row by row (V9)"
+    "; the order types include a height within the library's comparison tolerance of 1"
 )
 ASSUMPTIONS = [
     "real arithmetic (rounding not modelled); y strictly between 0 and height; parameters finite, start != end (SShape/ZShape: start < end)",
